@@ -175,3 +175,70 @@ pub mod rand_core {
     }
 }
 }
+// ---- p256 0.13 / elliptic-curve 0.13 (feature use-p256): ASSUMED contracts ----
+pub mod deps_p256 {
+use vstd::prelude::*;
+pub mod p256 {
+    use vstd::prelude::*;
+    verus! {
+    pub struct FieldBytes(pub [u8; 32]);
+    impl From<[u8; 32]> for FieldBytes { fn from(a: [u8; 32]) -> (r: FieldBytes) ensures r.0 == a { FieldBytes(a) } }
+    impl vstd::std_specs::convert::FromSpecImpl<[u8; 32]> for FieldBytes { open spec fn obeys_from_spec() -> bool { true } open spec fn from_spec(v: [u8; 32]) -> Self { FieldBytes(v) } }
+    impl core::ops::Deref for FieldBytes { type Target = [u8]; fn deref(&self) -> (r: &[u8]) ensures r@ == self.0@ { &self.0 } }
+    pub struct NistP256;
+    #[derive(Debug)]
+    pub struct EcError;
+    // SEC1 encoding held by value: `len` is 65 for an uncompressed point, 1 for the identity (what Default gives)
+    pub struct EncodedPoint { pub data: [u8; 65], pub len: usize }
+    impl Default for EncodedPoint { #[verifier::external_body] fn default() -> (r: Self) ensures r.len == 1 { unimplemented!() } }
+    impl EncodedPoint {
+        #[verifier::external_body]
+        pub fn as_bytes(&self) -> (r: &[u8]) ensures r@ == self.data@.subrange(0, self.len as int), self.len <= 65 { unimplemented!() }
+    }
+    pub struct SecretKey { pub sk: [u8; 32] }
+    pub struct NonZeroScalar { pub sk: [u8; 32] }
+    pub struct AffinePoint { pub enc: Ghost<Seq<u8>> }
+    pub struct SharedSecret { pub bytes: FieldBytes }
+    pub mod elliptic_curve {
+        use vstd::prelude::*;
+        pub mod sec1 { pub trait ToEncodedPoint {} }
+        verus! {
+        pub struct PublicKey<C> { pub enc: Ghost<Seq<u8>>, pub affine: super::AffinePoint, pub c: core::marker::PhantomData<C> }
+        }
+    }
+    pub type PublicKey = elliptic_curve::PublicKey<NistP256>;
+    impl SecretKey {
+        // assumed: accepts exactly the scalars in [1, n-1]
+        #[verifier::external_body]
+        pub fn from_bytes(b: &FieldBytes) -> (r: Result<SecretKey, EcError>)
+            ensures r is Ok <==> crate::vspec::p256_valid_scalar(b.0@), r matches Ok(k) ==> k.sk == b.0 { unimplemented!() }
+        #[verifier::external_body]
+        pub fn public_key(&self) -> (r: PublicKey) ensures r.enc@ == crate::vspec::std_p256_pub(self.sk@), r.affine.enc@ == r.enc@ { unimplemented!() }
+        #[verifier::external_body]
+        pub fn to_nonzero_scalar(&self) -> (r: NonZeroScalar) ensures r.sk == self.sk { unimplemented!() }
+    }
+    impl elliptic_curve::PublicKey<NistP256> {
+        #[verifier::external_body]
+        pub fn from_sec1_bytes(b: &[u8]) -> (r: Result<Self, EcError>)
+            ensures r is Ok <==> crate::vspec::p256_valid_point(b@), r matches Ok(k) ==> k.enc@ == b@ && k.affine.enc@ == b@ { unimplemented!() }
+        // assumed: uncompressed SEC1 encoding, 65 bytes
+        #[verifier::external_body]
+        pub fn to_encoded_point(&self, compress: bool) -> (r: EncodedPoint)
+            ensures !compress ==> r.len == 65 && r.data@ == self.enc@ { unimplemented!() }
+        #[verifier::external_body]
+        pub fn as_affine(&self) -> (r: &AffinePoint) ensures r.enc@ == self.affine.enc@ { unimplemented!() }
+    }
+    impl SharedSecret {
+        pub fn raw_secret_bytes(&self) -> (r: &FieldBytes) ensures r.0 == self.bytes.0 { &self.bytes }
+    }
+    pub mod ecdh {
+        use vstd::prelude::*;
+        verus! {
+        #[verifier::external_body]
+        pub fn diffie_hellman(sk: super::NonZeroScalar, pk: &super::AffinePoint) -> (r: super::SharedSecret)
+            ensures r.bytes.0@ == crate::vspec::std_p256_ecdh(sk.sk@, pk.enc@) { unimplemented!() }
+        }
+    }
+    }
+}
+}
